@@ -17,7 +17,7 @@ def is_width_take(q, t):
     return len(a) == 1 and a[0][0] == "+" and a[0][3] == q.WIDTH_INTERVAL and t.preserves(q.WIDTH_INTERVAL - 1)
 
 
-def rule_TR1(rep, prog, q, ts):
+def rule_TR1(rep, prog, q, ts, universal_only=False):
     rid = rep.rule("C04-TR1", "reader admission: every transition that adds one WIDTH_INTERVAL without holding the drain lock is guarded by "
                    "not IN_BARRIER / not suspended, PENDING_BARRIER == 0 and DIRTY == 0; the sync reservation additionally checks that nothing is queued; "
                    "the unconditional reservation is only used by the drainer for sync waiters", floor=5)
@@ -27,6 +27,8 @@ def rule_TR1(rep, prog, q, ts):
         if isinstance(t, trans.GiveUp) or not is_width_take(q, t):
             continue
         rep.saw(t.fn)
+        if t.kind == "rmw" and universal_only:
+            continue
         if t.kind == "rmw":
             # unconditional: who-may-call
             o = t.origin
@@ -53,6 +55,8 @@ def rule_TR1(rep, prog, q, ts):
                     "barrier runs or is pending, or behind an unseen enqueue"
                     % (t.origin, "/".join(nm for nm, b in (("IN_BARRIER", q.IN_BARRIER), ("PENDING_BARRIER", q.PENDING_BARRIER), ("DIRTY", q.DIRTY), ("suspend bits", q.SUSPEND_BITS)) if (t.old.k0 & b) != b)),
                     sample={"site": t.origin, "old_known_zero": hex(t.old.k0)}, details={"guards": t.old.notes})
+    if universal_only:
+        return
     # tail pre-check of the sync reservation
     fn = prog.fn("_dispatch_queue_try_reserve_sync_width")
     rep.saw(fn)
@@ -235,6 +239,26 @@ def run(rep, tier="quick", srcdir=None, only=None):
         rule_SB5(rep, prog, q)
     if want("C04-MP6"):
         rule_MP6(rep, prog, q)
+
+
+def run_thorough(rep, srcdir=None, only=None):
+    """cross-check: the universal (for-all-transitions) rules are re-evaluated on the module built WITH the always-inliner, where every
+    inlined copy of a state transition appears in its caller's context (constant arguments folded, caller guards visible)"""
+    if only:
+        return
+    facts = build.facts_for("all", mode="all", srcdir=srcdir)
+    prog = ir.Program(facts)
+    q = Q(srcdir)
+    ex = trans.Extractor(prog, "thorough")
+    ex.compute_argbits()
+    ts = []
+    for fn in sorted(prog.all_functions(), key=lambda f: f.name):
+        ts.extend(ex.transitions(fn, DQ_STATE, plain=True))
+    rep.extra["inlined_form_transitions"] = len(ts)
+    n0 = len(rep.findings)
+    sub = report_sub(rep)
+    rule_TR1(sub, prog, q, ts, universal_only=True)
+    merge_sub(rep, sub, 'C04-TR1i', 'C04-TR1 (guarded reader admission) re-evaluated on the fully inlined modules')
 
 
 MANIFEST = {
